@@ -97,6 +97,23 @@ fn collision_kinds() -> Vec<Kind> {
             build: |mut v| T::Call(Box::new(T::Lam(vec![LArg::Req("c".into())], Box::new(v.remove(0)))), vec![T::num(9.0)]),
         },
         Kind {
+            name: "lam-optional-param-c",
+            slots: vec![SlotKind::Expr],
+            is_expr: true,
+            class: "collision",
+            build: |mut v| T::List(vec![
+                T::Call(Box::new(T::Lam(vec![LArg::Opt("c".into())], Box::new(T::List(vec![T::id("c"), v.remove(0)])))), vec![T::num(9.0)]),
+                T::Call(Box::new(T::Lam(vec![LArg::Opt("c".into())], Box::new(T::id("c")))), vec![]),
+            ]),
+        },
+        Kind {
+            name: "lam-rest-param-d",
+            slots: vec![SlotKind::Expr],
+            is_expr: true,
+            class: "collision",
+            build: |mut v| T::Call(Box::new(T::Lam(vec![LArg::Req("q".into()), LArg::Rest("d".into())], Box::new(T::List(vec![T::id("d"), T::id("q"), v.remove(0)])))), vec![T::num(1.0), T::num(2.0)]),
+        },
+        Kind {
             name: "do-shadow-c",
             slots: vec![SlotKind::Expr],
             is_expr: true,
